@@ -102,6 +102,40 @@ def direct_optimisers(mon, rng):
         mon.violation("acq:not-argmax", f"direct decoupled: values {got} for pairs {pairs}, top-q of the table {want}", case)
 
 
+class ContentAcq:
+    """acquisition value is a function of the row's content: identical rows tie exactly"""
+
+    def __init__(self, w):
+        self.w = w
+
+    def __call__(self, x):
+        return np.asarray(x, float) @ self.w
+
+
+def direct_duplicate_rows(mon, rng):
+    from vopy.acquisition import optimize_acqf_discrete
+
+    n = int(rng.integers(3, 8))
+    rows = rng.integers(0, 4, size=(n, 2)).astype(float)
+    rows[int(rng.integers(n))] = rows[int(rng.integers(n))]
+    i, j = rng.choice(n, size=2, replace=False)
+    rows[i] = rows[j] = rows.max(0) + 1  # the two best choices are identical rows
+    w = np.array([1.0, 0.37])
+    q = int(rng.integers(2, n + 1))
+    vals = rows @ w
+    try:
+        cands, got = optimize_acqf_discrete(ContentAcq(w), q, rows.copy())
+    except Exception as e:
+        mon.violation(f"acq:optimiser-crash:{type(e).__name__}", f"duplicate rows: {e!r}", {"rows": rows, "q": q})
+        return
+    mon.count("direct_duplicate_row_calls")
+    mon.event(case_hash("dup", rows, q), True, "direct/duplicate-rows")
+    want = np.sort(vals)[::-1][:q]
+    got = np.asarray(got, float)
+    if len(got) != q or np.abs(got - want).max() > 1e-12:
+        mon.violation("acq:not-argmax", f"identical choice rows: batch values {got.tolist()}, top-{q} of the table {want.tolist()}", {"rows": rows, "q": q})
+
+
 def make(rng, variant):
     over = {"K": int(rng.integers(1, 13)), "contraction": float(rng.choice([4, 8, 32]))}
     info = runs.VARIANTS[variant]
@@ -215,6 +249,7 @@ def shard(mon, tier, rng, shard_no, nshards):
                         "first_request_index": reqs[0]["evaluation_index"] if reqs else None})
         for _ in range(6):
             direct_optimisers(mon, rng)
+        direct_duplicate_rows(mon, rng)
 
 
 def replay(mon, rec):
